@@ -122,7 +122,29 @@ func LoadWorld(repoDir string, patterns []string, overlay map[string][]byte) (*W
 	}
 	// contracts
 	w.CS = NewContracts()
+	// contract files of the loaded packages and of every repository package they import
+	var all []*packages.Package
+	seenP := map[string]bool{}
+	var walk func(p *packages.Package)
+	walk = func(p *packages.Package) {
+		if seenP[p.PkgPath] || !strings.HasPrefix(p.PkgPath, repoModule) {
+			return
+		}
+		seenP[p.PkgPath] = true
+		var ims []string
+		for k := range p.Imports {
+			ims = append(ims, k)
+		}
+		sort.Strings(ims)
+		for _, k := range ims {
+			walk(p.Imports[k])
+		}
+		all = append(all, p)
+	}
 	for _, p := range pkgs {
+		walk(p)
+	}
+	for _, p := range all {
 		for _, f := range p.GoFiles {
 			if strings.HasSuffix(f, "_verif.go") && strings.Contains(filepath.Base(f), "contracts") {
 				var err error
@@ -201,4 +223,58 @@ func inRepo(fn *ssa.Function) bool {
 		return inRepo(fn.Parent())
 	}
 	return p != nil && strings.HasPrefix(p.Path(), repoModule)
+}
+
+// mayHaveGhostEffects: can repository code without a contract reach (through static calls) a function
+// whose contract changes ghost state, or make an interface/dynamic call (whose target is unknown)?
+func (w *World) mayHaveGhostEffects(fn *ssa.Function, seen map[*ssa.Function]bool) bool {
+	if seen[fn] {
+		return false
+	}
+	seen[fn] = true
+	for _, b := range fn.Blocks {
+		for _, ins := range b.Instrs {
+			var cc *ssa.CallCommon
+			switch c := ins.(type) {
+			case *ssa.Call:
+				cc = c.Common()
+			case *ssa.Defer:
+				cc = c.Common()
+			case *ssa.Go:
+				cc = c.Common()
+			default:
+				continue
+			}
+			if cc.IsInvoke() {
+				return true
+			}
+			switch v := cc.Value.(type) {
+			case *ssa.Builtin:
+				continue
+			case *ssa.Function:
+				key := fnKey(v)
+				if fc := w.callContract(key); fc != nil {
+					for _, m := range fc.Modifies {
+						m = strings.TrimSpace(m)
+						if _, isGhost := w.CS.Ghosts[m]; isGhost {
+							return true
+						}
+					}
+					continue
+				}
+				if inRepo(v) && len(v.Blocks) > 0 {
+					if w.mayHaveGhostEffects(v, seen) {
+						return true
+					}
+				}
+			case *ssa.MakeClosure:
+				if f, ok := v.Fn.(*ssa.Function); ok && w.mayHaveGhostEffects(f, seen) {
+					return true
+				}
+			default:
+				return true
+			}
+		}
+	}
+	return false
 }
